@@ -383,7 +383,7 @@ class C05Gen(C12Gen):
         if r < 0.8:
             return ["sub", num(rng.choice([1, 2, 3])), var(t)]                             # involution
         if r < 0.9:
-            return ["mul", var(rng.choice(self.flags)), var(rng.choice(self.smalls if self.simple else fin))]
+            return ["mul", var(rng.choice(self.flags)), var(rng.choice(self.smalls if (self.simple and self.smalls) else fin))]
         return ["mul", num(-1), var(t)]                                                    # sign flip
 
     def fin_cond(self, depth=0):
